@@ -260,7 +260,8 @@ def runHist (env : Env) (fuel : Nat) : List Step → G → List String
 
 /-! `memo <fuel> <MACROS>;<PRODUCTIONS>;<dx> <op> <op> …` — a history on the tokenizer cache (`Model/GlobalsMemo.lean`)
   strings  dotted hex code points (`-` = empty);  items `name=text,name=text`, `E` = empty, `N` = `None`
-  op       `set` (settings.set) | `new:<macros>:<productions>` (Tokenizer(macros, productions))
+  op       `set` (settings.set) | `new:<macros>:<productions>` (Tokenizer(macros, productions)) |
+           `run:<macros>:<productions>` (a `tokenize` run of an object created with these arguments)
 reply: one observation per op, joined by ` | `:
   `ok <hit 0|1> <entries in the cache> <name=pattern,…> <commentmatcher> <urimatcher>` |
   `err <KeyError:name|IndexError|diverges> <entries>` | `set <entries>`; `baddict` for a dict with a repeated key
@@ -290,16 +291,20 @@ def mkDict (l : CssVerif.Memo.Items) : Option CssVerif.Memo.PyDict :=
 inductive MemoReq
   | set
   | new (m : CssVerif.Memo.MacrosArg) (p : CssVerif.Memo.ProdsArg)
+  | run (m : CssVerif.Memo.MacrosArg) (p : CssVerif.Memo.ProdsArg)
   | badDict
 
 def parseMemoOp (w : String) : Option MemoReq :=
   if w == "set" then some .set else
   match splitOnChar w ':' with
-  | ["new", m, p] =>
+  | [kind, m, p] =>
+    if kind != "new" && kind != "run" then none else
+    let mk (m : CssVerif.Memo.MacrosArg) (p : CssVerif.Memo.ProdsArg) : MemoReq :=
+      if kind == "new" then .new m p else .run m p
     match parseItems m, parseItems p with
-    | some none, some p => some (.new none p)
+    | some none, some p => some (mk none p)
     | some (some l), some p => match mkDict l with
-      | some d => some (.new (some d) p)
+      | some d => some (mk (some d) p)
       | none => some .badDict
     | _, _ => none
   | _ => none
@@ -317,6 +322,13 @@ def runMemo (fuel : Nat) : List MemoReq → CssVerif.Memo.TkState CssVerif.Memo.
     ("set " ++ toString s'.cache.length) :: runMemo fuel t s'
   | .new m p :: t, s =>
     let r := CssVerif.Memo.newTokenizer (CssVerif.Memo.pyCompile fuel) s m p
+    let line := match r.1 with
+      | .ok (tb, hit) => " ".intercalate ["ok", b01 hit, toString r.2.cache.length, showItems tb.tokenmatches,
+                                           encCps tb.comment, encCps tb.uri]
+      | .error e => "err " ++ showCErr e ++ " " ++ toString r.2.cache.length
+    line :: runMemo fuel t r.2
+  | .run m p :: t, s =>
+    let r := CssVerif.Memo.runTokenizer (CssVerif.Memo.pyCompile fuel) s m p
     let line := match r.1 with
       | .ok (tb, hit) => " ".intercalate ["ok", b01 hit, toString r.2.cache.length, showItems tb.tokenmatches,
                                            encCps tb.comment, encCps tb.uri]
